@@ -905,6 +905,12 @@ impl<'tcx> Cx<'tcx> {
                         } else {
                             j.put("k", J::s("ext"));
                             j.put("path", J::s(self.key(d)));
+                            if tcx.is_diagnostic_item(rustc_span::sym::mem_drop, d) && iargs.len() > 0 {
+                                if let Some(t0) = iargs[0].as_type() {
+                                    let g = self.drop_glue(t0, rec.root).set("ty", J::s(ts(t0)));
+                                    j.put("glue", g);
+                                }
+                            }
                             j.put("gargs", J::s(with_no_trimmed_paths!(format!("{:?}", iargs))));
                             self.fn_like_args(iargs, rec.root, &mut fnargs);
                             j.put("fnargs", J::Arr(fnargs));
